@@ -742,7 +742,13 @@ def body_inf_vertex(case, ctx):
     # ideal vertices are located through a square root of a rounding error (1e-8 in the
     # disc), amplified by the Cayley map like 1 + x^2: positions are compared to 1e-6 (1 + x^2)
     xmax = max(abs(f[0]) for f in fin)
-    slack = (1.0 + xmax * xmax) * (10.0 if any(y == 0 for y in case["ys"]) else 1.0)
+    rho = float(np.max(mink_ratio(np.array(rows)[None])))
+    has_ideal = any(y == 0 for y in case["ys"])
+    # positions in the half-plane are compared with the documented accuracy of the library's
+    # half-plane circles (pos_tol: centre and radius come from ideal endpoints located to
+    # sqrt(eps), extrapolated from the edge), in units of 1e-6
+    slack = max(1.0, pos_tol("halfspace", xmax + 3.0, 0.35, 3.0 if has_ideal else None, rho)
+                / 1e-6) * (1.0 + xmax * xmax)
 
     def dist_to_edges(pt):
         best = np.inf
